@@ -39,6 +39,12 @@ impl ScopeRef {
     pub fn sub_selectors(parent: Self, selectors: SelectorCtx) -> Self {
         Self::dynamic(Scope::sub_selectors(parent, selectors))
     }
+    /// Create a new subscope for the body of a flow-control directive.
+    pub fn sub_flow(parent: Self) -> Self {
+        let mut scope = Scope::sub(parent);
+        scope.flow = true;
+        Self::dynamic(scope)
+    }
     fn dynamic(scope: Scope) -> Self {
         Self::Dynamic(Arc::new(scope))
     }
@@ -95,7 +101,7 @@ impl ScopeRef {
                     Some(v.do_evaluate(self.clone(), true)?)
                 }
                 Item::While(cond, body) => {
-                    let scope = Self::sub(self.clone());
+                    let scope = Self::sub_flow(self.clone());
                     while cond.evaluate(scope.clone())?.is_true() {
                         if let Some(r) = scope.clone().eval_body(body)? {
                             return Ok(Some(r));
@@ -200,6 +206,9 @@ pub struct Scope {
     format: Format,
     /// The thing to use for `@content` in a mixin.
     content: ArcSwapOption<MixinDecl>,
+    /// True for the body of `@for` / `@while` (flow control): assignments
+    /// there may update a global variable.
+    flow: bool,
 }
 
 impl Scope {
@@ -219,6 +228,7 @@ impl Scope {
             forward: Default::default(),
             format,
             content: None.into(),
+            flow: false,
         }
     }
     /// Create a scope for a built-in module.
@@ -247,6 +257,7 @@ impl Scope {
             forward: Default::default(),
             format,
             content: None.into(),
+            flow: false,
         }
     }
     /// Create a new subscope of a given parent with selectors.
@@ -262,6 +273,7 @@ impl Scope {
             forward: Default::default(),
             format,
             content: None.into(),
+            flow: false,
         }
     }
 
@@ -290,7 +302,40 @@ impl Scope {
 
     /// Define a none-default, non-global variable.
     pub fn define(&self, name: Name, val: Value) -> Result<(), ScopeError> {
-        self.set_variable(name, val, false, false)
+        if name.split_module().is_some() {
+            return self.set_variable(name, val, false, false);
+        }
+        self.variables.lock().unwrap().insert(name, val);
+        Ok(())
+    }
+
+    /// Assign to the innermost enclosing scope that already declares
+    /// `name`.  A global variable is only updated from top-level flow
+    /// control; otherwise (or if no scope declares the name) a new local
+    /// variable is declared in this scope.
+    fn assign(&self, name: Name, val: Value) {
+        let mut cur: &Self = self;
+        let mut only_flow = true;
+        loop {
+            {
+                let mut vars = cur.variables.lock().unwrap();
+                if vars.contains_key(&name) {
+                    if cur.parent.is_some() || only_flow {
+                        vars.insert(name, val);
+                        return;
+                    }
+                    break;
+                }
+            }
+            match &cur.parent {
+                Some(parent) => {
+                    only_flow &= cur.flow;
+                    cur = parent;
+                }
+                None => break,
+            }
+        }
+        self.variables.lock().unwrap().insert(name, val);
     }
 
     /// Define a variable with a value.
@@ -331,7 +376,7 @@ impl Scope {
         if global {
             self.define_global(name, val);
         } else {
-            self.variables.lock().unwrap().insert(name, val);
+            self.assign(name, val);
         }
         Ok(())
     }
